@@ -167,20 +167,22 @@ def build_history(codes, static):
 
 
 def check_history(codes, zeroed, any_state, min_int, allow_resets, static, is_reset=lambda o: getattr(o, "name", "") == "RESET",
-                  reset_wire=lambda o: o.w, device=None, other_static=()):
+                  reset_wire=lambda o: o.w, device=None, other_static=(), measured_only=()):
     """run the real transform on the opcode program and replay its output against an independent lifetime model.
     Returns (ok, reason).  Labels may be any objects supporting ==/hash (ints, strings, symbolic integers).
 
     device = ("none",) | ("wires", [labels]): go through devices.preprocess.device_resolve_dynamic_wires instead; the registers the
     DOCUMENTED rule gives (device wires not present in the tape / integers above every integer wire of the tape) are the model's
-    `zeroed` / `min_int`.  other_static: further static wires; one gate on each comes first in the tape, IN THIS ORDER."""
+    `zeroed` / `min_int`.  other_static: further static wires; one gate on each comes first in the tape, IN THIS ORDER.
+    measured_only: further static wires that only a measurement reads."""
     h = build_history(codes, static)
     if h is None:
         return True, "ill-formed program (skipped)"
     ops, meta = h
     prefix = [qp.PauliX(w) for w in other_static]
-    statics = list(other_static) + [static]
-    tape = qp.tape.QuantumScript(prefix + ops, [qp.expval(qp.Z(static))])
+    # measured_only: wires that no operation touches but a measurement reads - they belong to the circuit just the same
+    statics = list(other_static) + [static] + list(measured_only)
+    tape = qp.tape.QuantumScript(prefix + ops, [qp.expval(qp.Z(static))] + [qp.expval(qp.Z(w)) for w in measured_only])
     try:
         if device is None:
             (out,), _ = R.resolve_dynamic_wires(tape, zeroed=list(zeroed), any_state=list(any_state), min_int=min_int, allow_resets=allow_resets)
